@@ -204,6 +204,14 @@ UNITS['c10j'] = {
     ],
 }
 
+UNITS['c12'] = {
+    'template': 'contracts/c12.vrs',
+    'mutants': [
+        ('cache_stores_when_bypassed', 'if !self.no_cache {', 'if true {', ['C12.cache']),
+        ('lookup_ignores_the_bypass', 'if self.no_cache { return None; }', '', ['C12.lookup']),
+    ],
+}
+
 UNITS['c10'] = {
     'template': 'contracts/c10.vrs',
     'mutants': [
@@ -491,6 +499,21 @@ PROPS = {
         'assumptions': ['definition slots are those written by resolve (unit c08)', 'syntax_at / find_folders contracts (pinned)', 'spans are local to the module of their tree'],
         'not_decided': ['the edited sources are accepted and compile to the same document (two-program property)', 'edits do not overlap (distinct nodes have disjoint spans: parser invariant, out of reach)', 'several folders containing the document: edits of the later folder are appended'],
     },
+    'C12': {
+        'units': ['c12'],
+        'level': 'other',
+        'obligation_prefixes': ['C12.'],
+        'technique': 'Verus contracts on the real memo-table functions of the parser context: Context::{cache, lookup, without_cache} (unit c12)',
+        'level_text': 'Deductive proof (Verus/Z3) of the function-level half of "memoisation is invisible" only: the memo table is a faithful map — `cache` stores a result under exactly (cursor, production tag) and changes nothing else, '
+                      '`lookup` returns exactly what is stored under that key and never changes the table, and with the bypass switch (`without_cache`) nothing is stored and every lookup misses. '
+                      'That a production returns the same result and leaves the same tree whether or not its result was taken from the table (which needs the productions to be functions of (context, cursor)), '
+                      'and the linear bound on parser work, are not decided: `memoize` takes a function pointer (unsupported by Verus), the productions are closure combinators: level other.',
+        'level_note': 'ASSUMED: `HashMap<(Cursor, Tag), ParserResult>` as a trusted map shim (insert / get+cloned), ParserResult opaque and cloned to an equal value, the hit counter (a Cell) as an unspecified shim that does not overflow. Rule R5 (`mut self`).',
+        'design_ref': 'DESIGN.md section 12.50',
+        'explanation': 'Listed not applicable in the plan (closure combinators, Kani did not finish). The three functions that read and write the memo table are plain functions and carry the table-level half of the property.',
+        'assumptions': ['the HashMap shim', 'ParserResult::clone yields an equal value'],
+        'not_decided': ['parsing with the table gives the tree and errors that parsing without it gives (needs memoize and the productions)', 'the amount of parser work grows at most linearly with the number of tokens'],
+    },
     'C10': {
         'units': ['c10', 'c10j'],
         'level': 'proof',
@@ -713,7 +736,6 @@ HOOK_COMMITS = []
 
 NOT_APPLICABLE = {
     'C05': 'hyperproperty relating the outputs of two programs (before/after a rewrite); a contract speaks about one call, and a product encoding would need the whole pipeline inside the verifier',
-    'C12': 'every parser production is a closure combinator over &mut Context (rejected by Verus: closures capturing a mutable reference); Kani on parse_program with three symbolic tokens did not finish in 30 min; the linear bound needs ghost accounting through that same code',
 }
 
 
